@@ -7,7 +7,7 @@
                                     was handed to the collector are dropped)
      internal/tracer/tracer.go     (GetDecompressor: which names are known)
    as the code is, statement by statement.  No proofs here. *)
-From V Require Export Base.
+From V Require Export Base C14_Http.
 Open Scope N_scope.
 
 (* ---------- what the tracer is configured with ---------- *)
@@ -367,11 +367,72 @@ Definition run_c14_props (args : list sx) : sx :=
     ret (L [sx_bool (fst p); I (match snd p with DNil => 0 | DIdentity => 1 | DBroken => 2 | DNamed => 3 end)%Z])
   | _ => None end).
 
+(* ---------- the scripts through TracingHandler / TracingRoundTripper, with the request / response around them ---------- *)
+Definition props_of_hmap (h : hmap) : bool * dkind :=
+  props_of_headers (h_get1 (bs "Content-Type") h) (h_get1 (bs "Content-Encoding") h)
+                   (h_get1 (bs "Connect-Content-Encoding") h) (h_get1 (bs "Grpc-Encoding") h).
+
+(* the wrapped handler reads the request body to the end (the inner body delivers the chunks, then (0, EOF)),
+   then writes; one builder for both directions *)
+Definition body_script (chunks : list bytes) : list rop := map (fun ch => RRead ch IoNone) chunks ++ [RRead [] IoEOF].
+
+(* (headers table ops) as c14.writer, or
+   (headers table ops (mode method clen request-headers body-chunks)) ->
+     ((n, err per Write) (events of both directions) (what the handler's reads of the body returned)
+      ((method ContentLength headers) the handler sees, the request headers the trace reports)) *)
+Definition run_c14_handler (args : list sx) : sx :=
+  match args with
+  | [hd; tbl; ops; rq] =>
+    or_bad (
+    do p <- un_headers hd; do tbl <- un_table tbl; do ops <- un_listof un_wop ops;
+    do q <- un_reqspec rq;
+    let '(mode, m, clen, h, chunks) := q in
+    if (mode =? 2)%Z then None else      (* net/http's server never hands a handler a nil Body *)
+    let (stq, dkq) := props_of_hmap h in
+    let (st, dk) := p in
+    let r1 := reader_run (dec_fun dkq []) (mk_cfg true stq (has_dec dkq)) ws_init (body_script chunks) in
+    let cf := mk_cfg false st (has_dec dk) in
+    let r := writer_run (dec_fun dk tbl) cf (mk_ws false dt_init (w_b (fst r1))) ops in
+    ret (L [L (map sx_wres (snd r));
+            L (map sx_event (b_events (w_b (try_finish cf (fst r) ENil))));
+            L (map sx_rres (snd r1));
+            handler_request_sx m clen h]))
+  | _ => run_c14_writer args
+  end.
+
+Definition is_eof_read (o : rop) : bool := match o with RRead _ IoEOF => true | _ => false end.
+
+(* (0 headers table ops) as c14.reader, or
+   (0 headers table ops (mode method clen request-headers body-chunks) (status clen response-headers trailers)) ->
+     ((what the caller got per call) (events)
+      ((request the inner transport was given) (status ContentLength headers trailers the application sees
+        when the script is over) (the caller's own request headers afterwards))) *)
+Definition run_c14_rt (args : list sx) : sx :=
+  match args with
+  | [rq0; hd; tbl; ops; rq; rs] =>
+    or_bad (
+    do rq0 <- un_bool rq0; do p <- un_headers hd; do tbl <- un_table tbl; do ops <- un_listof un_rop ops;
+    do q <- un_reqspec rq; do s <- un_respspec rs;
+    let '(mode, m, qclen, qh, chunks) := q in
+    let '(stt, clen, h, t) := s in
+    let (st, dk) := props_of_hmap h in     (* the response headers decide, as in newReader(resp.Header, ...) *)
+    let (stq, dkq) := props_of_hmap qh in
+    if rq0 then None else
+    (* the inner transport reads the request body to the end (through the tracing wrapper) before it answers;
+       a nil Body (mode 2) stays nil: nothing to read, no request-body events *)
+    let b1 := if (mode =? 2)%Z then bld_init
+              else w_b (fst (reader_run (dec_fun dkq []) (mk_cfg true stq (has_dec dkq)) ws_init (body_script chunks))) in
+    let r := reader_run (dec_fun dk tbl) (mk_cfg false st (has_dec dk)) (mk_ws false dt_init b1) ops in
+    ret (L [L (map sx_rres (snd r)); L (map sx_event (b_events (w_b (fst r))));
+            round_trip_sx m qclen qh stt clen h t (existsb is_eof_read ops)]))
+  | _ => run_c14_reader args
+  end.
+
 Definition c14_table : list (bytes * (list sx -> sx)) :=
   [ (bs "c14.raw", run_c14_raw);
     (bs "c14.reader", run_c14_reader);
     (bs "c14.writer", run_c14_writer);
     (bs "c14.props", run_c14_props);
     (* the same scripts driven through TracingRoundTripper / TracingHandler (net/http plumbing) *)
-    (bs "c14.rt", run_c14_reader);
-    (bs "c14.handler", run_c14_writer) ].
+    (bs "c14.rt", run_c14_rt);
+    (bs "c14.handler", run_c14_handler) ].
